@@ -111,6 +111,9 @@ static inline Float *gv_mat_at(const struct Mat *m, Index r, Index c)
   __CPROVER_assert(1 <= r && r <= m->rows && 1 <= c && c <= m->cols, "Mat::operator()(r,c): 1 <= r <= rows, 1 <= c <= cols  [MV_CONTRACT_Mat_at]");
   return gv_cell();
 }
+/* sqrt of a payload value (the Gram-Schmidt norm): value-opaque like every other payload operation; no domain obligation (a NaN norm passes the
+   test `pivot < s_tol`; the floating-point values are not the subject of this unit) */
+static inline Float gv_sqrt_payload(Float x) { Float r; return r; }
 static inline void gv_vec_reset(struct Vec *v, Index n) { __CPROVER_assert(n >= 0, "Vec::reset(n): n >= 0"); v->dim = n; }
 static inline void gv_sym_reset(struct SymMat *m, Index n) { __CPROVER_assert(n >= 0, "SymMat::reset(n): n >= 0"); m->dim = n; }
 static inline void gv_mat_reset(struct Mat *m, Index r, Index c) { __CPROVER_assert(r >= 0 && c >= 0, "Mat::reset(r,c): r,c >= 0"); m->rows = r; m->cols = c; }
@@ -121,6 +124,17 @@ static inline Index *gv_veci_at(const struct VecI *v, Index i)
   __CPROVER_assert(1 <= i && i <= v->dim, "Vec<Index>::operator()(i): 1 <= i <= dim");
   return v->p + (i - 1);
 }
+#ifdef GV_BOUNDED
+/* bounded check: every index array gets a block of CONSTANT size GV_BN+1 >= n (CBMC then keeps it as GV_BN+1 scalars instead of an array of
+   symbolic size, whose theory is quadratic in the number of reads of the unwound program); accesses stay checked against dim */
+#undef GV_NEW
+#define GV_NEW(T, n) ((T *)gv_new_bounded((n), sizeof(T)))
+static inline void *gv_new_bounded(long n, size_t sz)
+{
+  __CPROVER_assert(0 <= n && n <= GV_BN + 1, "bounded: allocation within the bound");
+  return gv_new((size_t)(GV_BN + 1) * sz);
+}
+#endif
 static inline void gv_veci_reset(struct VecI *v, Index n)
 {
   __CPROVER_assert(n >= 0, "Vec<Index>::reset(n): n >= 0");
@@ -155,6 +169,7 @@ static inline struct VecI gv_veci_new(Index n)
    forms stay in use inside loop invariants and contract clauses, where function calls are not allowed) */
 static inline _Bool gv_perm_at(const struct AdjCholDec *s, Index k) { return PERM_AT(s, k); }
 static inline _Bool gv_pos_at(const struct AdjCholDec *s, Index v)  { return POS_AT(s, v); }
+static inline _Bool gv_perm_range(const struct AdjCholDec *s, Index k) { return !(1 <= k && k <= s->N) || (1 <= s->perm.p[k - 1] && s->perm.p[k - 1] <= s->N); }
 static inline _Bool gv_invp_at(const struct AdjCholDec *s, Index v) { return INVP_AT(s, v); }
 static inline _Bool gv_inv2_at(const struct AdjCholDec *s, Index k) { return INV2_AT(s, k); }
 static inline _Bool gv_gp_at(const struct VecI *g, Index n1, Index k) { return !(1 <= k && k <= n1) || (1 <= g->p[k - 1] && g->p[k - 1] <= n1); }
@@ -163,11 +178,15 @@ static inline _Bool gv_minx_at(const struct AdjCholDec *s, Index rows, Index m) 
 #ifdef GV_BOUNDED
 /* bounded check: concrete small arrays; the instances are ASSERTED, nothing is assumed */
 #define GV_PERM_INST(idx) __CPROVER_assert(1 <= (idx) && (idx) <= self->N && gv_perm_at(self, idx), "bounded: perm is a permutation at the position used here")
+#define GV_PERM_RANGE(idx) GV_PERM_INST(idx)
 #define GV_GP_INST(idx)   __CPROVER_assert(1 <= (idx) && (idx) <= N1 && gv_gp_at(&g_perm, N1, idx), "bounded: g_perm entry names a column of G")
 #define GV_MINX_INST(idx) __CPROVER_assert(gv_minx_at(self, M__p->rows, idx), "bounded: regularisation list entry names an unknown")
 #else
 #define GV_PERM_INST(idx) do { __CPROVER_assert(gv_perm_at(self, gv_k0), "P1 holds HERE for the arbitrary ghost position (justifies the instance taken next)"); \
                                GV_INST(1 <= (idx) && (idx) <= self->N, gv_perm_at(self, idx)); } while (0)
+/* the weaker instance "perm(idx) is an unknown" (a consequence of PERM_AT(idx)): all that an element access needs */
+#define GV_PERM_RANGE(idx) do { __CPROVER_assert(gv_perm_at(self, gv_k0), "P1 holds HERE for the arbitrary ghost position (justifies the instance taken next)"); \
+                               GV_INST(1 <= (idx) && (idx) <= self->N, gv_perm_range(self, idx)); } while (0)
 #define GV_GP_INST(idx)   do { __CPROVER_assert(gv_gp_at(&g_perm, N1, gv_q0), "g_perm entries name columns of G HERE for the arbitrary ghost slot (justifies the instance taken next)"); \
                                GV_INST(1 <= (idx) && (idx) <= N1, gv_gp_at(&g_perm, N1, idx)); } while (0)
 #define GV_MINX_INST(idx) GV_INST(0 <= (idx) && (idx) < self->minx_n, gv_minx_at(self, M__p->rows, idx))
@@ -183,7 +202,9 @@ static inline _Bool gv_minx_at(const struct AdjCholDec *s, Index rows, Index m) 
                        (s)->N0 == (s)->N - (s)->nullity && (s)->perm.dim == (s)->N && (s)->invp.dim == (s)->N && gv_pos.dim == (s)->N &&          \
                        (s)->perm.p != NULL && (s)->invp.p != NULL && gv_pos.p != NULL && (s)->x.dim == (s)->N)
 #define CH_FACTS(s)   (PERM_AT(s, gv_k0) && POS_AT(s, gv_v0) && INVP_AT(s, gv_v0) && INV2_AT(s, gv_k0))
-#define CH_SOLVE_ASSIGNS(s) (s)->is_solved, (s)->M, (s)->N, (s)->perm, (s)->invp, (s)->mat, (s)->rhs, (s)->s_tol, (s)->nullity, (s)->N0, (s)->x0, \
+/* solve() on a solved object returns at once and writes nothing: every target is conditional.  (Also a CBMC necessity: a pointer field that a
+   replaced contract havocs and then only equates with its old value is not dereferenceable afterwards.) */
+#define CH_SOLVE_ASSIGNS(s) !(s)->is_solved: (s)->is_solved, (s)->M, (s)->N, (s)->perm, (s)->invp, (s)->mat, (s)->rhs, (s)->s_tol, (s)->nullity, (s)->N0, (s)->x0, \
                             (s)->Q0, (s)->minx_n, (s)->minx_i, (s)->G, (s)->x, (s)->r, gv_exc, gv_payload, gv_pos, gv_accepted, gv_pivnode
 /* the contract of solve(), one text for the enforced contract (check solve) and for the contract that replaces the call in lindep() */
 #define CH_SOLVE_REQUIRES(self) \
@@ -280,7 +301,7 @@ __CPROVER_loop_invariant(column + 1 <= i && i <= self->N + 1 && (ipvt == 0 || (c
    gv_pivnode == self->perm.p[(ipvt ? ipvt : column) - 1])
 __CPROVER_decreases((long)self->N + 1 - i)
 //@ head AdjCholDec_solve 7
-GV_PERM_INST(i);
+GV_PERM_RANGE(i);
 //@ tail AdjCholDec_solve 7
 if (ipvt == i) gv_pivnode = self->perm.p[i - 1];   /* ghost: the diagonal of the node at position i became the pivot */
 //@ post AdjCholDec_solve 7
@@ -293,7 +314,7 @@ if (ipvt) {
 }
 __CPROVER_assert(self->perm.p[column - 1] == gv_pivnode, "P2: the node moved to position `column` is the node whose diagonal was selected as pivot");
 __CPROVER_assert(gv_perm_at(self, gv_k0) && gv_pos_at(self, gv_v0), "P1: perm is a permutation after the pivot swap");
-GV_PERM_INST(column);
+GV_PERM_RANGE(column);
 
 /* ---- inverse permutation */
 //@ loop AdjCholDec_solve 13
@@ -359,67 +380,67 @@ __CPROVER_assigns(i, gv_payload)
 __CPROVER_loop_invariant((column) <= i && (i <= (self->N) + 1 || i == (column)))
 __CPROVER_decreases(GV_MAX((long)(self->N) + 1 - i, 0))
 //@ head AdjCholDec_solve 8
-GV_PERM_INST(i);
+GV_PERM_RANGE(i);
 //@ loop AdjCholDec_solve 9
 __CPROVER_assigns(j, gv_payload)
 __CPROVER_loop_invariant((i) <= j && (j <= (self->N) + 1 || j == (i)))
 __CPROVER_decreases(GV_MAX((long)(self->N) + 1 - j, 0))
 //@ head AdjCholDec_solve 9
-GV_PERM_INST(j);
+GV_PERM_RANGE(j);
 //@ loop AdjCholDec_solve 10
 __CPROVER_assigns(j, gv_payload)
 __CPROVER_loop_invariant((column+1) <= j && (j <= (self->N) + 1 || j == (column+1)))
 __CPROVER_decreases(GV_MAX((long)(self->N) + 1 - j, 0))
 //@ head AdjCholDec_solve 10
-GV_PERM_INST(j);
+GV_PERM_RANGE(j);
 //@ loop AdjCholDec_solve 11
 __CPROVER_assigns(i, gv_payload)
 __CPROVER_loop_invariant((j) <= i && (i <= (self->N) + 1 || i == (j)))
 __CPROVER_decreases(GV_MAX((long)(self->N) + 1 - i, 0))
 //@ head AdjCholDec_solve 11
-GV_PERM_INST(i);
+GV_PERM_RANGE(i);
 //@ loop AdjCholDec_solve 12
 __CPROVER_assigns(pivot_row, gv_payload)
 __CPROVER_loop_invariant((column+1) <= pivot_row && (pivot_row <= (self->N) + 1 || pivot_row == (column+1)))
 __CPROVER_decreases(GV_MAX((long)(self->N) + 1 - pivot_row, 0))
 //@ head AdjCholDec_solve 12
-GV_PERM_INST(pivot_row);
+GV_PERM_RANGE(pivot_row);
 //@ loop AdjCholDec_solve 14
 __CPROVER_assigns(i, gv_payload)
 __CPROVER_loop_invariant((self->N0+1) <= i && (i <= (self->N) + 1 || i == (self->N0+1)))
 __CPROVER_decreases(GV_MAX((long)(self->N) + 1 - i, 0))
 //@ head AdjCholDec_solve 14
-GV_PERM_INST(i);
+GV_PERM_RANGE(i);
 //@ loop AdjCholDec_solve 15
 __CPROVER_assigns(ii, gv_payload)
 __CPROVER_loop_invariant((2) <= ii && (ii <= (self->N0) + 1 || ii == (2)))
 __CPROVER_decreases(GV_MAX((long)(self->N0) + 1 - ii, 0))
 //@ head AdjCholDec_solve 15
-GV_PERM_INST(ii);
+GV_PERM_RANGE(ii);
 //@ loop AdjCholDec_solve 16
 __CPROVER_assigns(jj, gv_payload)
 __CPROVER_loop_invariant((1) <= jj && (jj <= (ii-1) + 1 || jj == (1)))
 __CPROVER_decreases(GV_MAX((long)(ii-1) + 1 - jj, 0))
 //@ head AdjCholDec_solve 16
-GV_PERM_INST(jj);
+GV_PERM_RANGE(jj);
 //@ loop AdjCholDec_solve 17
 __CPROVER_assigns(ii, gv_payload)
 __CPROVER_loop_invariant((1) <= ii && (ii <= (self->N0) + 1 || ii == (1)))
 __CPROVER_decreases(GV_MAX((long)(self->N0) + 1 - ii, 0))
 //@ head AdjCholDec_solve 17
-GV_PERM_INST(ii);
+GV_PERM_RANGE(ii);
 //@ loop AdjCholDec_solve 18
 __CPROVER_assigns(ii, gv_payload)
 __CPROVER_loop_invariant(ii <= (self->N0-1) && (ii >= (1) - 1 || ii == (self->N0-1)))
 __CPROVER_decreases(GV_MAX((long)ii - (1) + 1, 0))
 //@ head AdjCholDec_solve 18
-GV_PERM_INST(ii);
+GV_PERM_RANGE(ii);
 //@ loop AdjCholDec_solve 19
 __CPROVER_assigns(jj, gv_payload)
 __CPROVER_loop_invariant((ii+1) <= jj && (jj <= (self->N0) + 1 || jj == (ii+1)))
 __CPROVER_decreases(GV_MAX((long)(self->N0) + 1 - jj, 0))
 //@ head AdjCholDec_solve 19
-GV_PERM_INST(jj);
+GV_PERM_RANGE(jj);
 //@ loop AdjCholDec_solve 20
 __CPROVER_assigns(i, gv_payload)
 __CPROVER_loop_invariant((1) <= i && (i <= (self->M) + 1 || i == (1)))
@@ -429,43 +450,43 @@ __CPROVER_assigns(jj, gv_payload)
 __CPROVER_loop_invariant((1) <= jj && (jj <= (self->N0) + 1 || jj == (1)))
 __CPROVER_decreases(GV_MAX((long)(self->N0) + 1 - jj, 0))
 //@ head AdjCholDec_solve 21
-GV_PERM_INST(jj);
+GV_PERM_RANGE(jj);
 //@ loop AdjCholDec_solve 22
 __CPROVER_assigns(column, gv_payload)
 __CPROVER_loop_invariant(column <= (self->N0) && (column >= (1) - 1 || column == (self->N0)))
 __CPROVER_decreases(GV_MAX((long)column - (1) + 1, 0))
 //@ head AdjCholDec_solve 22
-GV_PERM_INST(column);
+GV_PERM_RANGE(column);
 //@ loop AdjCholDec_solve 23
 __CPROVER_assigns(kk, gv_payload, zii)
 __CPROVER_loop_invariant((column+1) <= kk && (kk <= (self->N0) + 1 || kk == (column+1)))
 __CPROVER_decreases(GV_MAX((long)(self->N0) + 1 - kk, 0))
 //@ head AdjCholDec_solve 23
-GV_PERM_INST(kk);
+GV_PERM_RANGE(kk);
 //@ loop AdjCholDec_solve 24
 __CPROVER_assigns(row, gv_payload)
 __CPROVER_loop_invariant(row <= (column-1) && (row >= (1) - 1 || row == (column-1)))
 __CPROVER_decreases(GV_MAX((long)row - (1) + 1, 0))
 //@ head AdjCholDec_solve 24
-GV_PERM_INST(row);
+GV_PERM_RANGE(row);
 //@ loop AdjCholDec_solve 25
 __CPROVER_assigns(kk, gv_payload, zij)
 __CPROVER_loop_invariant((row+1) <= kk && (kk <= (self->N0) + 1 || kk == (row+1)))
 __CPROVER_decreases(GV_MAX((long)(self->N0) + 1 - kk, 0))
 //@ head AdjCholDec_solve 25
-GV_PERM_INST(kk);
+GV_PERM_RANGE(kk);
 //@ loop AdjCholDec_solve 26
 __CPROVER_assigns(i, gv_payload)
 __CPROVER_loop_invariant((1) <= i && (i <= (self->N0) + 1 || i == (1)))
 __CPROVER_decreases(GV_MAX((long)(self->N0) + 1 - i, 0))
 //@ head AdjCholDec_solve 26
-GV_PERM_INST(i);
+GV_PERM_RANGE(i);
 //@ loop AdjCholDec_solve 27
 __CPROVER_assigns(j, gv_payload)
 __CPROVER_loop_invariant((1) <= j && (j <= (self->nullity) + 1 || j == (1)))
 __CPROVER_decreases(GV_MAX((long)(self->nullity) + 1 - j, 0))
 //@ head AdjCholDec_solve 27
-GV_PERM_INST(self->N0+j);
+GV_PERM_RANGE(self->N0+j);
 //@ loop AdjCholDec_solve 28
 __CPROVER_assigns(column, gv_payload)
 __CPROVER_loop_invariant((1) <= column && (column <= (self->nullity) + 1 || column == (1)))
@@ -475,19 +496,19 @@ __CPROVER_assigns(ii, gv_payload)
 __CPROVER_loop_invariant(ii <= (self->N0-1) && (ii >= (1) - 1 || ii == (self->N0-1)))
 __CPROVER_decreases(GV_MAX((long)ii - (1) + 1, 0))
 //@ head AdjCholDec_solve 29
-GV_PERM_INST(ii);
+GV_PERM_RANGE(ii);
 //@ loop AdjCholDec_solve 30
 __CPROVER_assigns(jj, gv_payload)
 __CPROVER_loop_invariant((ii+1) <= jj && (jj <= (self->N0) + 1 || jj == (ii+1)))
 __CPROVER_decreases(GV_MAX((long)(self->N0) + 1 - jj, 0))
 //@ head AdjCholDec_solve 30
-GV_PERM_INST(jj);
+GV_PERM_RANGE(jj);
 //@ loop AdjCholDec_solve 31
 __CPROVER_assigns(i, gv_payload)
 __CPROVER_loop_invariant((1) <= i && (i <= (self->nullity) + 1 || i == (1)))
 __CPROVER_decreases(GV_MAX((long)(self->nullity) + 1 - i, 0))
 //@ head AdjCholDec_solve 31
-GV_PERM_INST(self->N0+i);
+GV_PERM_RANGE(self->N0+i);
 //@ loop AdjCholDec_solve 32
 __CPROVER_assigns(j, gv_payload)
 __CPROVER_loop_invariant((1) <= j && (j <= (self->nullity) + 1 || j == (1)))
@@ -567,7 +588,7 @@ __CPROVER_loop_invariant(column + 1 <= i && i <= self->N + 1 && (ipvt == 0 || (c
    gv_pivnode == self->perm.p[(ipvt ? ipvt : column) - 1])
 __CPROVER_decreases((long)self->N + 1 - i)
 //@ head AdjCholDec_blk_pivot_step 1
-GV_PERM_INST(i);
+GV_PERM_RANGE(i);
 //@ tail AdjCholDec_blk_pivot_step 1
 if (ipvt == i) gv_pivnode = self->perm.p[i - 1];
 //@ post AdjCholDec_blk_pivot_step 1
@@ -579,37 +600,37 @@ if (ipvt) {
 }
 __CPROVER_assert(self->perm.p[column - 1] == gv_pivnode, "P2: the node moved to position `column` is the node whose diagonal was selected as pivot");
 __CPROVER_assert(gv_perm_at(self, gv_k0) && gv_pos_at(self, gv_v0), "P1: perm is a permutation after the pivot swap");
-GV_PERM_INST(column);
+GV_PERM_RANGE(column);
 //@ loop AdjCholDec_blk_pivot_step 2
 __CPROVER_assigns(i, gv_payload)
 __CPROVER_loop_invariant((column) <= i && (i <= (self->N) + 1 || i == (column)))
 __CPROVER_decreases(GV_MAX((long)(self->N) + 1 - i, 0))
 //@ head AdjCholDec_blk_pivot_step 2
-GV_PERM_INST(i);
+GV_PERM_RANGE(i);
 //@ loop AdjCholDec_blk_pivot_step 3
 __CPROVER_assigns(j, gv_payload)
 __CPROVER_loop_invariant((i) <= j && (j <= (self->N) + 1 || j == (i)))
 __CPROVER_decreases(GV_MAX((long)(self->N) + 1 - j, 0))
 //@ head AdjCholDec_blk_pivot_step 3
-GV_PERM_INST(j);
+GV_PERM_RANGE(j);
 //@ loop AdjCholDec_blk_pivot_step 4
 __CPROVER_assigns(j, gv_payload)
 __CPROVER_loop_invariant((column+1) <= j && (j <= (self->N) + 1 || j == (column+1)))
 __CPROVER_decreases(GV_MAX((long)(self->N) + 1 - j, 0))
 //@ head AdjCholDec_blk_pivot_step 4
-GV_PERM_INST(j);
+GV_PERM_RANGE(j);
 //@ loop AdjCholDec_blk_pivot_step 5
 __CPROVER_assigns(i, gv_payload)
 __CPROVER_loop_invariant((j) <= i && (i <= (self->N) + 1 || i == (j)))
 __CPROVER_decreases(GV_MAX((long)(self->N) + 1 - i, 0))
 //@ head AdjCholDec_blk_pivot_step 5
-GV_PERM_INST(i);
+GV_PERM_RANGE(i);
 //@ loop AdjCholDec_blk_pivot_step 6
 __CPROVER_assigns(pivot_row, gv_payload)
 __CPROVER_loop_invariant((column+1) <= pivot_row && (pivot_row <= (self->N) + 1 || pivot_row == (column+1)))
 __CPROVER_decreases(GV_MAX((long)(self->N) + 1 - pivot_row, 0))
 //@ head AdjCholDec_blk_pivot_step 6
-GV_PERM_INST(pivot_row);
+GV_PERM_RANGE(pivot_row);
 //@ end
 
 /* (5) later uses of perm: one iteration each; precondition = state after the pivot loop and `N0 = N - nullity` */
@@ -618,7 +639,7 @@ __CPROVER_requires(BLK_AFTER_PIVOT(self) && self->N0 + 1 <= i && i <= self->N)
 __CPROVER_assigns(gv_payload)
 //@ entry AdjCholDec_blk_x0_zero
 GV_CANARY("AdjCholDec_blk_x0_zero entry");
-GV_PERM_INST(i);
+GV_PERM_RANGE(i);
 //@ end
 
 //@ contract AdjCholDec_blk_forward
@@ -626,13 +647,13 @@ __CPROVER_requires(BLK_AFTER_PIVOT(self) && 2 <= ii && ii <= self->N0)
 __CPROVER_assigns(gv_payload)
 //@ entry AdjCholDec_blk_forward
 GV_CANARY("AdjCholDec_blk_forward entry");
-GV_PERM_INST(ii);
+GV_PERM_RANGE(ii);
 //@ loop AdjCholDec_blk_forward 1
 __CPROVER_assigns(jj, gv_payload)
 __CPROVER_loop_invariant((1) <= jj && (jj <= (ii-1) + 1 || jj == (1)))
 __CPROVER_decreases(GV_MAX((long)(ii-1) + 1 - jj, 0))
 //@ head AdjCholDec_blk_forward 1
-GV_PERM_INST(jj);
+GV_PERM_RANGE(jj);
 //@ end
 
 //@ contract AdjCholDec_blk_diag
@@ -640,7 +661,7 @@ __CPROVER_requires(BLK_AFTER_PIVOT(self) && 1 <= ii && ii <= self->N0)
 __CPROVER_assigns(gv_payload)
 //@ entry AdjCholDec_blk_diag
 GV_CANARY("AdjCholDec_blk_diag entry");
-GV_PERM_INST(ii);
+GV_PERM_RANGE(ii);
 //@ end
 
 //@ contract AdjCholDec_blk_backward
@@ -648,13 +669,13 @@ __CPROVER_requires(BLK_AFTER_PIVOT(self) && 1 <= ii && ii <= self->N0 - 1)
 __CPROVER_assigns(gv_payload)
 //@ entry AdjCholDec_blk_backward
 GV_CANARY("AdjCholDec_blk_backward entry");
-GV_PERM_INST(ii);
+GV_PERM_RANGE(ii);
 //@ loop AdjCholDec_blk_backward 1
 __CPROVER_assigns(jj, gv_payload)
 __CPROVER_loop_invariant((ii+1) <= jj && (jj <= (self->N0) + 1 || jj == (ii+1)))
 __CPROVER_decreases(GV_MAX((long)(self->N0) + 1 - jj, 0))
 //@ head AdjCholDec_blk_backward 1
-GV_PERM_INST(jj);
+GV_PERM_RANGE(jj);
 //@ end
 
 //@ contract AdjCholDec_blk_residual
@@ -667,7 +688,7 @@ __CPROVER_assigns(jj, gv_payload)
 __CPROVER_loop_invariant((1) <= jj && (jj <= (self->N0) + 1 || jj == (1)))
 __CPROVER_decreases(GV_MAX((long)(self->N0) + 1 - jj, 0))
 //@ head AdjCholDec_blk_residual 1
-GV_PERM_INST(jj);
+GV_PERM_RANGE(jj);
 //@ end
 
 //@ contract AdjCholDec_blk_cofactor
@@ -675,25 +696,25 @@ __CPROVER_requires(BLK_AFTER_PIVOT(self) && 1 <= column && column <= self->N0 &&
 __CPROVER_assigns(gv_payload)
 //@ entry AdjCholDec_blk_cofactor
 GV_CANARY("AdjCholDec_blk_cofactor entry");
-GV_PERM_INST(column);
+GV_PERM_RANGE(column);
 //@ loop AdjCholDec_blk_cofactor 1
 __CPROVER_assigns(kk, gv_payload, zii)
 __CPROVER_loop_invariant((column+1) <= kk && (kk <= (self->N0) + 1 || kk == (column+1)))
 __CPROVER_decreases(GV_MAX((long)(self->N0) + 1 - kk, 0))
 //@ head AdjCholDec_blk_cofactor 1
-GV_PERM_INST(kk);
+GV_PERM_RANGE(kk);
 //@ loop AdjCholDec_blk_cofactor 2
 __CPROVER_assigns(row, gv_payload)
 __CPROVER_loop_invariant(row <= (column-1) && (row >= (1) - 1 || row == (column-1)))
 __CPROVER_decreases(GV_MAX((long)row - (1) + 1, 0))
 //@ head AdjCholDec_blk_cofactor 2
-GV_PERM_INST(row);
+GV_PERM_RANGE(row);
 //@ loop AdjCholDec_blk_cofactor 3
 __CPROVER_assigns(kk, gv_payload, zij)
 __CPROVER_loop_invariant((row+1) <= kk && (kk <= (self->N0) + 1 || kk == (row+1)))
 __CPROVER_decreases(GV_MAX((long)(self->N0) + 1 - kk, 0))
 //@ head AdjCholDec_blk_cofactor 3
-GV_PERM_INST(kk);
+GV_PERM_RANGE(kk);
 //@ end
 
 //@ contract AdjCholDec_blk_G_fill
@@ -702,8 +723,8 @@ __CPROVER_requires(self->G.rows == self->N && self->G.cols == self->nullity + 1)
 __CPROVER_assigns(gv_payload)
 //@ entry AdjCholDec_blk_G_fill
 GV_CANARY("AdjCholDec_blk_G_fill entry");
-GV_PERM_INST(i);
-GV_PERM_INST(self->N0 + j);
+GV_PERM_RANGE(i);
+GV_PERM_RANGE(self->N0 + j);
 //@ end
 
 //@ contract AdjCholDec_blk_G_identity
@@ -712,7 +733,7 @@ __CPROVER_requires(self->G.rows == self->N && self->G.cols == self->nullity + 1)
 __CPROVER_assigns(gv_payload)
 //@ entry AdjCholDec_blk_G_identity
 GV_CANARY("AdjCholDec_blk_G_identity entry");
-GV_PERM_INST(self->N0 + i);
+GV_PERM_RANGE(self->N0 + i);
 //@ end
 
 //@ contract AdjCholDec_blk_G_backward
@@ -721,13 +742,13 @@ __CPROVER_requires(self->G.rows == self->N && self->G.cols == self->nullity + 1)
 __CPROVER_assigns(gv_payload)
 //@ entry AdjCholDec_blk_G_backward
 GV_CANARY("AdjCholDec_blk_G_backward entry");
-GV_PERM_INST(ii);
+GV_PERM_RANGE(ii);
 //@ loop AdjCholDec_blk_G_backward 1
 __CPROVER_assigns(jj, gv_payload)
 __CPROVER_loop_invariant((ii+1) <= jj && (jj <= (self->N0) + 1 || jj == (ii+1)))
 __CPROVER_decreases(GV_MAX((long)(self->N0) + 1 - jj, 0))
 //@ head AdjCholDec_blk_G_backward 1
-GV_PERM_INST(jj);
+GV_PERM_RANGE(jj);
 //@ end
 
 //@ harness
